@@ -3,7 +3,7 @@
    Totals are over any duplicate-free address list `dom` that contains the addresses an operation touches (every other
    account is left untouched: ledger_untouched). *)
 From Coq Require Import ZArith List Bool Lia.
-From Verif Require Import Ledger.Model Ledger.Proofs TxExec.Model TxExec.Proofs TxExec.ProofsBlock BaseFee.Model BaseFee.Proofs.
+From Verif Require Import Ledger.Model Ledger.Proofs TxExec.Model TxExec.Proofs TxExec.ProofsBlock TxExec.ProofsAdopt BaseFee.Model BaseFee.Proofs.
 Import ListNotations.
 Open Scope Z_scope.
 
@@ -70,6 +70,20 @@ Section C08.
       + (match staking with Some (reward, _, _, _) => reward | None => 0 end) /\
     sum_bal dom (l_acc (fst st')) = sum_bal dom (l_acc (fst st)).
   Proof. exact (vtho_delta_block_lemma W O clause_result write_credit e dom txs st staking deleg used st' rcs). Qed.
+
+  (* 5a. the same for the packer's Adopt in full (all pre-checks, known-tx and dependency bookkeeping) *)
+  Theorem vtho_delta_flow_full e fe dom txs fs st fs' st' rcs :
+    let T := e_time e in let S := e_stop e in
+    clauses_neutral W O clause_result T S dom -> NoDup dom -> In (e_benef e) dom ->
+    adopt_all_full W O clause_result write_credit e fe fs txs st [] = (fs', st', rcs) ->
+    Forall (fun rc => In (r_payer O rc) dom) rcs ->
+    sum_eng T S dom (l_acc (fst st')) = sum_eng T S dom (l_acc (fst st)) + sum_reward O rcs - sum_paid O rcs /\
+    sum_bal dom (l_acc (fst st')) = sum_bal dom (l_acc (fst st)).
+  Proof.
+    intros T S N ND HB H HP.
+    destruct (adopt_all_full_totals W O clause_result write_credit e fe dom N ND HB txs fs st [] fs' st' rcs H HP) as [new [E [A B]]].
+    cbn in E. subst new. split; assumption.
+  Qed.
 
   (* 5b. per account (dom = [a]) and over any address set: exactly the payer is charged gasUsed x price (= r_paid, C07 gas_bounds),
          exactly the beneficiary receives the reward, nobody else's VTHO moves unless a clause moves it *)
@@ -140,6 +154,7 @@ Print Assumptions ledger_untouched.
 Print Assumptions vtho_delta.
 Print Assumptions vtho_delta_tx.
 Print Assumptions vtho_delta_block.
+Print Assumptions vtho_delta_flow_full.
 Print Assumptions energy_delta_any_set.
 Print Assumptions price_ge_basefee.
 Print Assumptions basefee_direction.
